@@ -7,5 +7,6 @@ Init == tid \in 1..Len(Tr)
 Next == FALSE /\ UNCHANGED tid
 Spec == Init /\ [][Next]_tid
 Emit == LET inl == Inline(Tr[tid])
-        IN PrintT("@@I" \o ToJson([tid |-> tid, wellformed |-> WellFormed(inl), unique |-> LocalNamesUnique(inl), gunique |-> GlobalNamesUnique(inl), prog |-> inl]))
+        IN PrintT("@@I" \o ToJson([tid |-> tid, wellformed |-> WellFormed(inl), unique |-> LocalNamesUnique(inl), gunique |-> GlobalNamesUnique(inl),
+                                         itconst |-> IterConstClash(Tr[tid]), prog |-> inl]))
 =============================================================================
